@@ -33,12 +33,22 @@ def utf8_comment(rng):
     return "".join(rng.choice("日本語コメントあいうえお表ソ能ｶﾀｶﾅ—é abc;#,") for _ in range(rng.randrange(1, 15))).encode("utf-8")
 
 
-def add_comments(text, rng, maker):
-    """append a comment to some lines and insert own-line comments (never before the first line: see C12 finding)"""
+def add_comments(text, rng, maker, ascii_head=0):
+    """append a comment to some lines and insert own-line comments (never before the first line: see C12 finding).
+    ascii_head > 0: the first ascii_head bytes of the file are pure ASCII (a long ASCII comment block after the first
+    line), the non-ASCII comments only come after it - a decoder that sniffs a prefix must still treat the rest right."""
     lines = text.encode().split(b"\n")
     out = []
     for k, ln in enumerate(lines):
-        if ln and rng.random() < 0.6:
+        if ascii_head and k == 0:
+            out.append(ln)
+            n = len(ln) + 1
+            while n < ascii_head:
+                c = b"; " + bytes(rng.choice(b"abcdefghijklmnopqrstuvwxyz 0123456789-=*") for _ in range(min(70, max(1, ascii_head - n - 3))))
+                out.append(c)
+                n += len(c) + 1
+            continue
+        if ln and rng.random() < (0.9 if ascii_head else 0.6):
             ln = ln + b"\t" + rng.choice([b";", b"#"]) + b" " + maker(rng)
         out.append(ln)
         if k > 0 and k < len(lines) - 1 and rng.random() < 0.3:
@@ -144,11 +154,12 @@ def _run(v, tier, rng, work):
                             {"source": text, "cli_hex": (got or b"")[:200].hex(), "cli_len": len(got or b""), "api_hex": want[:200].hex(), "api_len": len(want)})
                 break
         # ---- comments in Shift_JIS / UTF-8 assemble like the comment-free form
-        for enc, maker in (("sjis", sjis_comment), ("utf8", utf8_comment)):
-            if i % 2 and tier == "quick":
+        heads = [1000, 1023, 1024, 1025, 2048, 4096, 5000, 70000]
+        for enc, maker, head in (("sjis", sjis_comment, 0), ("utf8", utf8_comment, 0), ("sjis after a long ASCII head", sjis_comment, heads[i % len(heads)])):
+            if i % 2 and tier == "quick" and not head:
                 continue
             csrc = os.path.join(work, "c%d.nas" % i)
-            open(csrc, "wb").write(add_comments(text, rng, maker))
+            open(csrc, "wb").write(add_comments(text, rng, maker, head))
             dst = os.path.join(work, "c%d.bin" % i)
             if os.path.exists(dst):
                 os.remove(dst)
@@ -173,5 +184,5 @@ def _run(v, tier, rng, work):
     if rc == 0 or after not in (GARBAGE, b""):
         v.violation("a failing run left something other than the old or an empty file", {"exit": rc, "len": len(after)})
     v.cov.update({"evaluations": evals, "distinct_nontrivial": len(vectors) + len(progs),
-                  "rule": "real CLI runs: all argument vectors of length 0..4 over {existing, missing, directory, unparsable} sources x {new, pre-existing longer, uncreatable, directory} destinations; random programs (flat and WCOFF) through the CLI into fresh and pre-filled destinations vs the in-process API; the same programs with generated Shift_JIS (trail 0x5c/0x7c, half-width katakana) and UTF-8 comments; a source failing in pass 2; non-trivial = distinct argument vectors + programs",
+                  "rule": "real CLI runs: all argument vectors of length 0..4 over {existing, missing, directory, unparsable} sources x {new, pre-existing longer, uncreatable, directory} destinations; random programs (flat and WCOFF) through the CLI into fresh and pre-filled destinations vs the in-process API; the same programs with generated Shift_JIS (trail 0x5c/0x7c, half-width katakana) and UTF-8 comments, also starting only after 1000..70000 bytes of pure ASCII; a source failing in pass 2; non-trivial = distinct argument vectors + programs",
                   "samples": [vectors[5], A.p_program(progs[0])], "argument_vectors": len(vectors), "programs": len(progs)})
